@@ -171,13 +171,17 @@ def _invert(a: Any) -> Any:
 # Assign built-in operators to UsageExecNode
 
 
-def reflected(operator: Callable[[Any, Any], Any]) -> Callable[[Any, Any], Any]:
+def reflected(operator: LazyExecNode[Any, Any]) -> LazyExecNode[Any, Any]:
     """Reflects an operator."""
 
     def inner_reflected(a: Any, b: Any) -> Any:
-        return operator(b, a)
+        return operator.exec_function(b, a)
 
-    return inner_reflected
+    # the reflected operator is an ExecNode itself (same id as the operator): it is called directly from the user's
+    # code, hence the recorded call location is the user's line and not this module
+    inner_reflected.__name__ = operator.exec_function.__name__
+    inner_reflected.__qualname__ = operator.exec_function.__qualname__
+    return _xn(inner_reflected)
 
 
 # binary operations
